@@ -88,6 +88,23 @@ static void run_config(const Cfg &cfg,const std::vector<Cfg> &all,session_pool &
 	for(size_t ci=0;ci<ciphers.size();ci+=(th?1:2)){ const std::string &c=ciphers[ci]; std::string tag=cfg.label+" cipher#"+std::to_string(ci); try_cipher(w,c,tag+" unchanged"); for(size_t bit=0;bit<c.size()*8;bit++){ std::string m=c; m[bit/8]^=(char)(1<<(bit%8)); try_cipher(w,m,tag+" bitflip"); } for(size_t n=0;n<c.size();n++) try_cipher(w,c.substr(0,n),tag+" truncated"); for(int ext=1;ext<=17;ext++) try_cipher(w,c+std::string(ext,'\0'),tag+" extended"); try_cipher(w,"",tag+" empty"); }
 	vf::guard("accepted",n_accept); vf::guard("rejected",n_reject); n_accept=n_reject=0; vf::outcome(cfg.label); }
 
+// ---- an encrypting backend as a state machine -------------------------------------------------------------------------
+// Every sequence of <= depth operations {encrypt(p1), encrypt(p2), decrypt(x0), decrypt(x1), decrypt(damaged)} on ONE encryptor
+// (a fresh encryptor per sequence; x0/x1 are valid cipher texts of another encryptor with the same key, as in "load the
+// incoming cookie, then save"). Necessary conditions for "reveals neither the payload nor whether two payloads are equal":
+// over ALL encrypt calls of ALL sequences the first cipher block (the per-message IV) never repeats, so no two cipher texts
+// are equal or share a prefix; every cipher text decrypts back; decrypt results do not depend on what happened before.
+static void encryptor_sequences(const Cfg &cfg,int depth){ std::unique_ptr<sessions::encryptor_factory> fac=cfg.make(cfg); std::string p1=payload(20,1),p2=payload(33,2); std::string x0,x1; { std::unique_ptr<sessions::encryptor> e0=fac->get(); x0=e0->encrypt(payload(5,3)); x1=e0->encrypt(p1); } std::string dmg=x0; dmg[dmg.size()/2]^=1;
+	const char *opn[]={"encrypt(p1)","encrypt(p2)","decrypt(x0)","decrypt(x1)","decrypt(damaged)"}; std::map<std::string,std::string> first_block; /* first 16 bytes -> sequence that produced it */ std::vector<int> cur; uint64_t nseq=0;
+	std::function<void()> run=[&](){ std::unique_ptr<sessions::encryptor> e=fac->get(); std::string name; for(size_t i=0;i<cur.size();i++){ if(i) name+=","; name+=opn[cur[i]]; } vf::announce("encryptor-seq "+cfg.label+" "+name); vf::eval(); nseq++;
+		for(size_t i=0;i<cur.size();i++){ bool last=(i+1==cur.size()); int op=cur[i];
+			if(op<=1){ const std::string &p=op?p2:p1; std::string c=e->encrypt(p); if(!last) continue; /* earlier calls of this sequence were checked when they were the last call of the shorter sequence - but on another encryptor; check them all the same */
+				std::string fb=c.substr(0,16); std::map<std::string,std::string>::iterator f=first_block.find(fb); if(f!=first_block.end()) bad("secrecy:iv-reuse:"+cfg.label,"two encrypt calls produce cipher texts with the same first block (the IV is not fresh): sequence ["+name+"] and sequence ["+f->second+"]"+(c.size()>=32?"":""),"seq="+name); else first_block[fb]=name;
+				std::string back; std::unique_ptr<sessions::encryptor> d=fac->get(); if(!d->decrypt(c,back)||back!=p) bad("encryptor:seq-roundtrip:"+cfg.label,"a cipher text produced after sequence ["+name+"] does not decrypt to its payload","seq="+name); vf::guard("encryptor_sequence_encrypts"); }
+			else { const std::string &x= op==2?x0:op==3?x1:dmg; std::string out="UNTOUCHED"; bool ok=e->decrypt(x,out); bool want_ok=op!=4; std::string want= op==2?payload(5,3):p1; if(ok!=want_ok||(ok&&out!=want)) bad("encryptor:seq-decrypt:"+cfg.label,"decrypt gives another result after sequence ["+name+"]","seq="+name); } } };
+	/* by increasing length, so that the first collision reported is between shortest sequences */ for(int len=1;len<=depth;len++){ std::function<void(int)> rec=[&](int d){ if(d==len){ run(); return; } for(int o=0;o<5;o++){ cur.push_back(o); rec(d+1); cur.pop_back(); } }; rec(0); }
+	vf::guard("encryptor_sequences",nseq); { vf::sample("{\"config\":"+vf::jstr(cfg.label)+",\"encryptor_sequences\":"+std::to_string(nseq)+",\"distinct_first_blocks\":"+std::to_string(first_block.size())+"}",30); } }
+
 static void config_refusals(){ // keys shorter than 16 bytes and encryption without MAC must be refused
 	vf::eval(); bool threw=false; try{ sessions::impl::hmac_factory f("sha1",crypto::key(hexkey(15,0))); std::unique_ptr<sessions::encryptor> e=f.get(); }catch(std::exception const &){ threw=true; } if(!threw) bad("config:short-key-accepted","a 15-byte HMAC key is accepted","hmac-sha1 key15"); else vf::guard("config_refusals");
 	{ json::value s; s["session"]["location"]="client"; s["session"]["client"]["cbc"]="aes"; s["session"]["client"]["cbc_key"]=hexkey(16,0); bool t=false; try{ session_pool p(s); p.init(); }catch(std::exception const &){ t=true; } if(!t) bad("config:cbc-without-mac","encryption without MAC is accepted by session_pool","cbc only"); else vf::guard("config_refusals"); }
@@ -95,10 +112,10 @@ static void config_refusals(){ // keys shorter than 16 bytes and encryption with
 	{ json::value s; s["session"]["location"]="client"; s["session"]["client"]["encryptor"]="hmac"; s["session"]["client"]["key"]=hexkey(8,0); bool t=false; try{ session_pool p(s); p.init(); Jar j; session_interface si(p,j); si.load(); si.set("a","b"); si.save(); }catch(std::exception const &){ t=true; } if(!t) bad("config:short-key-accepted-pool","an 8-byte key is accepted through the session_pool configuration","hmac key8"); else vf::guard("config_refusals"); } }
 
 int main(int argc,char **argv){ vf::init(argc,argv,"C05","fault_enumeration"); bool th=true; bool big=vf::thorough(); std::vector<Cfg> cfgs=configs(th); (void)big;
-	vf::C().rule="per key configuration: 13 key configurations (hmac-md5/sha1/sha224/sha256/sha384/sha512 with key lengths 16..129, aes128/192/256 with derived, combined and split keys); 3 cookies for each of 12 payload lengths 0..255 (thorough: + 1000, 4096) + an expiry grid {now-1, now, now+1} under a virtual clock; for the cookies: every single-bit flip of the decoded cipher text, every truncation, head cuts, extensions/prefixes by 1..17 bytes of 00/ff, every 16-byte block copy/swap/duplication, every single-character substitution of the cookie text by 69 characters, byte-granular splices with other valid cookies, transplants from every other configuration and from the same algorithm under another key, specials; the same at encryptor::decrypt level. distinct = key configurations (each a different code path: digest, key derivation, split keys); all non-trivial";
-	vf::assume("'decodes to' is defined by b64url::decode (whose exactness is C15's subject): text differing only in unused trailing bits or in characters the decoder maps to the same sextet is the same cipher text"); vf::assume("secrecy is a cryptographic claim enumeration cannot decide: only necessary conditions are checked (fresh IV per save, equal lengths for equal payload lengths, no 4-byte plaintext window in the cipher text)"); vf::assume("at expiry == now either verdict is accepted");
+	vf::C().rule="per key configuration: 13 key configurations (hmac-md5/sha1/sha224/sha256/sha384/sha512 with key lengths 16..129, aes128/192/256 with derived, combined and split keys); 3 cookies for each of 12 payload lengths 0..255 (thorough: + 1000, 4096) + an expiry grid {now-1, now, now+1} under a virtual clock; for the cookies: every single-bit flip of the decoded cipher text, every truncation, head cuts, extensions/prefixes by 1..17 bytes of 00/ff, every 16-byte block copy/swap/duplication, every single-character substitution of the cookie text by 69 characters, byte-granular splices with other valid cookies, transplants from every other configuration and from the same algorithm under another key, specials; the same at encryptor::decrypt level; for the AES configurations every sequence of <= 5 (6) operations {encrypt(p1), encrypt(p2), decrypt(valid x0), decrypt(valid x1), decrypt(damaged)} on one encryptor: first cipher blocks pairwise distinct over all encrypt calls of all sequences, round trip, decrypt verdicts independent of history. distinct = key configurations (each a different code path: digest, key derivation, split keys); all non-trivial";
+	vf::assume("'decodes to' is defined by b64url::decode (whose exactness is C15's subject): text differing only in unused trailing bits or in characters the decoder maps to the same sextet is the same cipher text"); vf::assume("secrecy is a cryptographic claim enumeration cannot decide: only necessary conditions are checked (a fresh first cipher block for every encrypt call over all operation sequences on an encryptor, equal lengths for equal payload lengths, no 4-byte plaintext window in the cipher text)"); vf::assume("at expiry == now either verdict is accepted");
 	if(!vf::C().replay_file.empty()) printf("replay: C05 cases are deterministic functions of the configuration (entropy only affects AES IVs); re-running the quick tier reproduces them\n");
-	vf::parallel(cfgs.size()+1,16,[&](int i){ if(i==(int)cfgs.size()){ config_refusals(); return; } json::value s; s["session"]["location"]="client"; s["session"]["client"]["encryptor"]="hmac"; s["session"]["client"]["key"]=hexkey(20,9); session_pool pool(s); pool.init(); run_config(cfgs[i],cfgs,pool,th); },th?1500:250);
-	vf::require_guard("roundtrips"); vf::require_guard("bitflips"); vf::require_guard("splices"); vf::require_guard("block_ops"); vf::require_guard("char_substitutions"); vf::require_guard("transplants"); vf::require_guard("secrecy_checks"); vf::require_guard("config_refusals"); vf::require_guard("accepted"); vf::require_guard("rejected");
+	vf::parallel(cfgs.size()+1,16,[&](int i){ if(i==(int)cfgs.size()){ config_refusals(); return; } json::value s; s["session"]["location"]="client"; s["session"]["client"]["encryptor"]="hmac"; s["session"]["client"]["key"]=hexkey(20,9); session_pool pool(s); pool.init(); run_config(cfgs[i],cfgs,pool,th); if(cfgs[i].aes) encryptor_sequences(cfgs[i],vf::thorough()?6:5); },th?1500:250);
+	vf::require_guard("roundtrips"); vf::require_guard("bitflips"); vf::require_guard("splices"); vf::require_guard("block_ops"); vf::require_guard("char_substitutions"); vf::require_guard("transplants"); vf::require_guard("secrecy_checks"); vf::require_guard("encryptor_sequences"); vf::require_guard("encryptor_sequence_encrypts"); vf::require_guard("config_refusals"); vf::require_guard("accepted"); vf::require_guard("rejected");
 	// distinct_nontrivial needs >=2: each configuration is one
 	return vf::finish(); }
